@@ -3,6 +3,12 @@ import re
 import sys
 
 
+if hasattr(sys, "set_int_max_str_digits"):
+    # Reports quote the values they complain about, and those are arbitrary-precision:
+    # '.word 1 << 177777' must end in 'does not fit in 16 bits', not in a ValueError of str()
+    sys.set_int_max_str_digits(0)
+
+
 WARNING_CLASSES = {
     "all": ["implicit-operand", "not-implemented", "suspicious-name", "excess-quote", "missing-newline", "meta-typo", "legacy-deferred", "implicit-index", "label-fixup", "excess-hash"],
     "default": ["implicit-operand", "not-implemented", "label-fixup", "excess-hash"]
